@@ -26,6 +26,8 @@ build_model() {
   cp coq/Extract/*.ml coq/Extract/*.mli ocaml/*.ml build/
   (cd build && ocamlfind ocamlopt -package zarith -linkpkg -O3 -w -a model.mli model.ml driver.ml -o model 2>&1 | grep -v "^$" || true)
   test -x build/model
+  (cd build && ocamlfind ocamlopt -package zarith -linkpkg -O3 -w -a model.mli model.ml price_driver.ml -o price_model 2>&1 | grep -v "^$" || true)
+  test -x build/price_model
 }
 
 build_harness() {
